@@ -487,7 +487,11 @@ def expected_for(r: Any, ty: str, v: Any, style: str) -> str:
         if style == "alt":  # lower-case hex: open clause
             return bytes(v).hex().lower()
         if style == "near":
-            return bytes([v[0], v[1] ^ 1]).hex().upper()
+            # one bit off, or the same NUMBER spelled with other bytes (leading zero bytes dropped
+            # or added, a radix prefix): a byte field is compared by its hex digits, not by value
+            h = bytes(v).hex().upper()
+            return r.choice([bytes([v[0], v[1] ^ 1]).hex().upper(), "00" + h, "0x" + h,
+                             h[2:] if h.startswith("00") else h[1:] if h.startswith("0") else "0" + h])
         return bytes(v).hex().upper()
     if style == "near":
         return r.choice([v.swapcase(), v.upper(), v.lower(), v + "x"])
